@@ -302,6 +302,13 @@ package server
 //@   modifies s.workspace.index.accountCounts[*], s.workspace.index.payeeCounts[*], s.workspace.index.commodityCounts[*], s.workspace.index.tagCounts[*], s.workspace.index.dateCounts[*], s.workspace.index.payeeTemplates[*], s.workspace.index.fileIndexes[*], s.workspace.index.tagValueCounts[*], s.workspace.index.tagValueCounts[*][*], s.workspace.index.transactionsByKey[*]
 //@   modifies s.workspace.index.accounts, s.workspace.index.payees, s.workspace.index.commodities, s.workspace.index.tags, s.workspace.index.tagValues, s.workspace.index.dates
 
+// Formatting works on the parse of the text the server holds now (C04: "the formatted text yields the same ..." is a
+// statement about that text; a journal parsed from an older or different text would be rewritten over it).
+//@ func (*Server).Format
+//@   props C04
+//@   requires s != nil && params != nil && DocSmall(s, params.TextDocument.URI)
+//@   ensures [C04:absent] !hasDoc(s, params.TextDocument.URI) ==> len(result0) == 0
+
 //@ func (*Server).DidClose
 //@   props C01 C17
 //@   requires s != nil && params != nil && tokenCache != nil && CacheOK(tokenCache)
